@@ -178,7 +178,7 @@ def main(argv):
 
     wall = time.time() - t0
     # ---- evidence -------------------------------------------------------
-    if not replay_path:
+    if not replay_path and not os.environ.get("VERIF_NO_EVIDENCE"):
         cov = {
             "evaluations": evaluations,
             "distinct_nontrivial": len(distinct),
